@@ -19,10 +19,10 @@ claimed.update({
    note="Trusted: as C01, plus the reference packetiser/classifier (harness/oracle). Parameter sets are never fragmented and precede their key frame in generated streams (stated in evidence). One run in 24 publishes a single GOP of more than 1000 packets (the replay is the whole of it)."),
  "C04": dict(level="exploration", ref="§5 C04",
    text="1300-4000 packet streams with key-frame spacing from 1 to 400 (and none), a pacing-protected healthy consumer, a consumer blocked inside Consume for tape-chosen phases or for ever, and a panicking consumer; invariants after every publish (backlog <= 1000 + one GOP) and at the end (healthy got everything, drops begin at a key-frame packet and end before one, GOPs published below the limit are delivered whole, panicker detached and closed).",
-   note="Trusted: as C01. The limit 1000 is taken from the property text. In the media family stalls are modelled at the Consumer interface; the service family adds real clients that stop reading on a simulated socket (RTSP/TCP, HTTP-FLV) and requires the publisher and every other real client to be unaffected. Streams may repeat SPS/PPS packets in the middle of GOPs; a panicking consumer may also panic or block in its Close."),
+   note="Trusted: as C01. The limit 1000 is taken from the property text. In the media family stalls are modelled at the Consumer interface; the service family adds real clients that stop reading on a simulated socket (RTSP/TCP, HTTP-FLV) and requires the publisher and every other real client to be unaffected. Streams may repeat SPS/PPS packets in the middle of GOPs; a panicking consumer may also panic or block in its Close. A consumer may also join with a GOP replay and then stop reading: its backlog bound includes the replay. A consumer whose Close never returns while it holds up the publisher ends as a worker that does not finish (exit 2, stated limit in DESIGN 12.9)."),
  "C05": dict(level="exploration", ref="§5 C05",
    text="2-3 actors issuing register / unregister / lookup / attach / stop over two paths in many spellings with schedule points inside Regist and Unregist; recorded history checked for linearizability with porcupine against a sequential registry model, quiescent Count/Infos/lookup observations, and an end-of-run oracle after 16 simulated minutes for retirement and idle-close (simsched jobs on the fake clock).",
-   note="Trusted: as C01, porcupine v1.3.0, the sequential model in scen/c05.go. Count/Infos are only observed at quiescent points. The api family drives DELETE /api/v1/streams/{path}, listings and real publisher/player sessions through the real mux."),
+   note="Trusted: as C01, porcupine v1.3.0, the sequential model in scen/c05.go. Count/Infos are only observed at quiescent points. The api family drives DELETE /api/v1/streams/{path}, listings and real publisher/player sessions through the real mux. Listings are also requested page by page with tokens that name no live stream; HLS access may consist of segment requests only."),
 })
 claimed.update({
  "C18": dict(level="fault_enumeration", ref="§5 C18",
@@ -69,12 +69,12 @@ claimed.update({
    note="Trusted: the reference resolver in scen/c17.go (written from the statement), the fake camera, the HTTP loop of the harness. The table x path dimension is sampled (input enumeration is not this technique); simulation adds the concurrent edit and the pull leg. Empty route URLs are outside the statement's quantifier. After all edits and lookups the table must read exactly as last saved."),
  "C20": dict(level="fault_enumeration", ref="§5 C20",
    text="A routed path requested through a real RTSP session (DESCRIBE/SETUP/PLAY) or by 2-3 racing requesters, with the pull client dialling a scripted fake camera: handshake step {connect, OPTIONS, DESCRIBE, SETUP video, SETUP audio, PLAY, streaming} x response kind {ok, refused, dial timeout, 404, 500, malformed, silence, reset, early EOF} x auth {none, Basic, Digest, never satisfied}; after a failure a second request meets a behaving camera. Oracle: success = right address and URL, credentials verified per RFC 2617 by the camera, stream under the requested path, camera packets relayed contiguously; failure = 404-style answer within the time budget, nothing registered, camera connection closed, counters back, later request dials afresh; concurrent requests end with one registered stream and no orphan connection after the requesters leave.",
-   note="Trusted: fake camera and its RFC 2617 verification, simnet dial seam (import-substituted into pull_client.go), sim.Conn. One (step, kind, auth) cell per run, seeded; all cells are reached in the quick tier (fault counters in the evidence). Simultaneous requesters are awaited with a 150 s budget (a hang is a violation, not an aborted run)."),
+   note="Trusted: fake camera and its RFC 2617 verification, simnet dial seam (import-substituted into pull_client.go), sim.Conn. One (step, kind, auth) cell per run, seeded; all cells are reached in the quick tier (fault counters in the evidence). Simultaneous requesters are awaited with a 150 s budget (a hang is a violation, not an aborted run). Cameras may send requests of their own while streaming (SET_PARAMETER with a body, OPTIONS): what the pull client writes must stay a sequence of RTSP messages. A retry loop that never ends is caught through the livelock breaker of the scheduler (DESIGN 12.9)."),
 })
 claimed.update({
  "C11": dict(level="exploration", ref="§5 C11",
    text="Authentication on; four users with pull/push rights over four streams; 0-2 administrator edits through the real API (narrow, widen, delete, re-create, password change); then 3-6 requests out of HTTP-FLV, HLS playlist and segment, RTSP digest play and publish, ws-rtsp upgrade plus a publish attempt through the WebSocket session, management API calls, token lifecycle (refresh token as access token, superseded token, invented token, expiry after 2 h on the fake clock) and an attacker deriving tokens from the identifiers disclosed to an unauthenticated client. Oracle: reference monitor decision(user, action, path) on the table as last saved with an independent pattern matcher: media / publication / management happens iff allowed (false grants and false refusals are both violations).",
-   note="Trusted: the reference matcher (harness/oracle/authz.go, written from docs/config.md and the property text), the harness HTTP/1.1 loop and gorilla WebSocket client over sim.Conn, the fake clock for token expiry. A ws-rtsp session opened before the edits is used after them; WSP (control+data channel, wrapped DESCRIBE/SETUP/PLAY) and WebSocket-FLV are entry points of their own; TLS is not simulated; the clock only moves forward. WSP handshakes are also sent with the Connection header as a token list (only a grant is judged there); a playlist served to a caller must carry that caller own token only."),
+   note="Trusted: the reference matcher (harness/oracle/authz.go, written from docs/config.md and the property text), the harness HTTP/1.1 loop and gorilla WebSocket client over sim.Conn, the fake clock for token expiry. A ws-rtsp session opened before the edits is used after them; WSP (control+data channel, wrapped DESCRIBE/SETUP/PLAY) and WebSocket-FLV are entry points of their own; TLS is not simulated; the clock only moves forward. WSP handshakes are also sent with the Connection header as a token list (only a grant is judged there); a playlist served to a caller must carry that caller own token only. RTSP play is also requested through URLs with dot segments or doubled slashes; user deletes may be spelled in another letter case; WSP channels opened on one stream may carry RTSP requests naming another."),
 })
 pending = {
 }
